@@ -190,18 +190,31 @@ def _bounded_refute(pc, goal, timeout_ms):
             apps = _reduction_apps(fs)
             if not apps:
                 break
-            if any(a.decl().name() == "LSE" for a in apps):
-                ok = False
-                break
             # innermost: no reduction inside its own lambda
             inner = [a for a in apps if not _reduction_apps([a.arg(1)])]
             subs = []
             for a in inner:
                 n, lam = a.arg(0), a.arg(1)
-                lens.append(n == N)
-                elems = [z3.simplify(z3.Select(lam, z3.IntVal(k))) for k in range(N)]
-                exp = (z3.Sum(elems) if N > 1 else elems[0]) if a.decl().name() == "Sum" else z3.Or(*elems)
+                M = N
+                if z3.is_int_value(n):
+                    M = n.as_long()
+                    if M > 16:
+                        ok = False
+                        break
+                else:
+                    lens.append(n == N)
+                if a.decl().name() == "LSE":
+                    # log-sum-exp stays opaque (one unknown real per syntactically distinct application)
+                    subs.append((a, z3.Real("lse!%d!%d" % (N, a.get_id()))))
+                    continue
+                elems = [z3.simplify(z3.Select(lam, z3.IntVal(k))) for k in range(M)]
+                if not elems:
+                    exp = z3.RealVal(0) if a.decl().name() == "Sum" else z3.BoolVal(False)
+                else:
+                    exp = (z3.Sum(elems) if M > 1 else elems[0]) if a.decl().name() == "Sum" else z3.Or(*elems)
                 subs.append((a, exp))
+            if not ok:
+                break
             fs = [z3.substitute(f, *subs) for f in fs]
         else:
             ok = False
